@@ -163,11 +163,33 @@ inductive LTr (s : State) (t : Tid) : Event → Thr → Prop
       LTr s t (.noteSeen t) { s.thr t with sawNote := true }
   | noteNotify (h : (s.thr t).loc = .cPost) (ht : (s.thr t).cTimed = true) :
       LTr s t (.noteNotify t) { s.thr t with cNotified := true }
+  -- observers (debug.c emit_cv_state / emit_waiters)
+  | callDebug (k : DKind) (h : (s.thr t).loc = .idle) :
+      LTr s t (.callDebug t k) { (s.thr t).fresh .dLd with dk := k }
+  | retDebug (k : DKind) (h : (s.thr t).loc = .dRet) (hk : k = (s.thr t).dk) :
+      LTr s t (.retDebug t k) ((s.thr t).fresh .idle)
+  | dbgLd (obs : Nat) (h : (s.thr t).loc = .dLd) (ho : obs = s.word.enc) :
+      LTr s t (.wordLd t .dbgLd obs)
+        (if dbgAcquires (s.thr t).dk obs = true
+         then { s.thr t with dWord := obs, dIdx := 0, loc := .spLd0, cont := .dbg, setNE := false }
+         else { s.thr t with dWord := obs, loc := .dRet })
+  | dbgW (r : Rid) (obs : Nat) (h : (s.thr t).loc = .dWalk) (hq : s.queue[(s.thr t).dIdx]? = some r)
+      (hm : r.isMucv = true) (ho : obs = b2n (s.recs r).waiting) :
+      LTr s t (.recLd t .dbgW r obs) { s.thr t with loc := .dRc }
+  | dbgRc (r : Rid) (obs : Nat) (h : (s.thr t).loc = .dRc) (hq : s.queue[(s.thr t).dIdx]? = some r)
+      (ho : obs = (s.recs r).rc) :
+      LTr s t (.recLd t .dbgRc r obs) { s.thr t with dIdx := (s.thr t).dIdx + 1, loc := .dWalk }
+
+/-- Atomic operations (as opposed to API boundaries, marks, semaphore operations). -/
+def Event.isAtomic : Event → Bool
+  | .wordLd .. | .wordCas .. | .wordSt .. | .recLd .. | .recSt .. | .recCas .. | .muLd .. | .muCas .. => true
+  | _ => false
 
 /-- All transitions. -/
 inductive Tr (cfg : Config) : State → Event → State → Prop
-  /-- events that leave the state unchanged (and touch no record) -/
-  | same {s : State} (e : Event) (h : touches s e = []) : Tr cfg s e s
+  /-- events that leave the state unchanged (and touch no record): none of them is an atomic
+      operation of cv.c / debug.c -/
+  | same {s : State} (e : Event) (h : touches s e = []) (hna : e.isAtomic = false) : Tr cfg s e s
   | tick {s : State} (ns : Nat) (h : s.now ≤ ns) : Tr cfg s (.tick ns) { s with now := ns }
   | loc {s : State} {t : Tid} {e : Event} {x' : Thr} (h : LTr s t e x') : Tr cfg s e (s.setThr t x')
   -- acquisition of the spinlock
@@ -209,6 +231,10 @@ inductive Tr (cfg : Config) : State → Event → State → Prop
       (hh : s.holder = some t) (hnew : new = (s.thr t).old.enc) (hn : Word.dec? new = some n) (hsp : n.spin = false) :
       Tr cfg s (.wordSt t .deqRel new obs)
         ({ s with word := n, holder := none }.setThr t { s.thr t with loc := .nDeqSpin })
+  | relDbg {s : State} (t : Tid) (new obs : Nat) (n : Word) (h : (s.thr t).loc = .dWalk)
+      (hh : s.holder = some t) (hnew : new = (s.thr t).old.enc) (hn : Word.dec? new = some n) (hsp : n.spin = false) :
+      Tr cfg s (.wordSt t .dbgRel new obs)
+        ({ s with word := n, holder := none }.setThr t { s.thr t with loc := .dRet })
   -- loads with an effect on shared state
   | wHeadExit {s : State} (t : Tid) (r : Rid) (y : Thr) (hy : y = s.thr t) (h : y.loc = .wHead) (hr : r = y.r)
       (hw : (s.recs r).waiting = false) :
@@ -285,7 +311,8 @@ inductive Tr (cfg : Config) : State → Event → State → Prop
         ({ s with sem := updS s.sem k (vCount cfg (s.sem k)) }.setRec r
             { s.recs r with posted := (s.recs r).posted || (decide ((s.recs r).enqSeq = q) && decide ((s.recs r).stat = RStat.woken)) }
           |>.setThr t { s.thr t with cur := none, loc := if (s.thr t).list.isEmpty then .kRet else .wwStore })
-  | semOther {s : State} (e : Event) (sem' : SemId → Nat) (h : touches s e = []) :
+  | semOther {s : State} (e : Event) (sem' : SemId → Nat) (h : touches s e = [])
+      (hopen : ∀ t, e.tid = some t → (s.thr t).loc.isOpen = true) :
       Tr cfg s e { s with sem := sem' }
   | semPdRetOkW {s : State} (t : Tid) (k : SemId) (h : (s.thr t).loc = .wSemRet) :
       Tr cfg s (.semPdRet t k false)
